@@ -45,10 +45,11 @@ func main() {
 	repo := flag.String("repo", "/repo", "repository root")
 	modfile := flag.String("modfile", "", "alternate go.mod")
 	out := flag.String("out", "", "output directory for rewritten sources")
-	var pkgs, adds, seams multi
+	var pkgs, adds, seams, captures multi
 	flag.Var(&pkgs, "pkg", "package pattern relative to repo (repeatable)")
 	flag.Var(&adds, "add", "virtualpath=realpath: extra non-test source file to load into its package and instrument (repeatable)")
 	flag.Var(&seams, "seam", "pkgpath:Func or pkgpath:(*T).Method: give the function an injectable seam (repeatable)")
+	flag.Var(&captures, "capture", "pkgpath:Func:var1,var2: after the statement defining var1 in Func, hand the named local variables to VerifCapture_Func (if set) and return nil results (repeatable)")
 	noTime := flag.String("keep-time", "", "comma separated package dirs whose time import is not swapped")
 	flag.Parse()
 	if *out == "" || len(pkgs) == 0 {
@@ -106,6 +107,7 @@ func main() {
 			}
 			r := &rewriter{fset: p.Fset, info: p.TypesInfo, file: f, rel: rel, pkg: p, keepTime: keepTime[filepath.Dir(rel)]}
 			r.seams = seamsFor(p.PkgPath, seams)
+			r.captures = capturesFor(p.PkgPath, captures)
 			r.run()
 			var buf bytes.Buffer
 			if err := format.Node(&buf, p.Fset, f); err != nil {
@@ -127,6 +129,17 @@ func main() {
 	}
 	b, _ := json.MarshalIndent(mapping, "", " ")
 	os.WriteFile(filepath.Join(*out, "mapping.json"), b, 0o644)
+}
+
+func capturesFor(pkgPath string, caps []string) map[string][]string {
+	m := map[string][]string{}
+	for _, s := range caps {
+		kv := strings.SplitN(s, ":", 3)
+		if len(kv) == 3 && (kv[0] == pkgPath || strings.HasSuffix(pkgPath, "/"+kv[0])) {
+			m[kv[1]] = strings.Split(kv[2], ",")
+		}
+	}
+	return m
 }
 
 func seamsFor(pkgPath string, seams []string) map[string]bool {
@@ -152,6 +165,8 @@ type rewriter struct {
 	used     bool
 	tmp      int
 	seams    map[string]bool
+	captures map[string][]string
+	captured map[string]bool
 }
 
 func (r *rewriter) site(n ast.Node) *ast.BasicLit {
@@ -252,6 +267,11 @@ func (r *rewriter) pre(c *astutil.Cursor) bool {
 	case *ast.FuncDecl:
 		if n.Body != nil && len(r.seams) > 0 {
 			r.maybeSeam(n)
+		}
+		if n.Body != nil && n.Recv == nil {
+			if vars, ok := r.captures[n.Name.Name]; ok {
+				r.capture(n, vars)
+			}
 		}
 	}
 	return true
@@ -548,5 +568,55 @@ func (r *rewriter) maybeSeam(fd *ast.FuncDecl) {
 	guard := &ast.IfStmt{Cond: &ast.BinaryExpr{X: ast.NewIdent(seamName), Op: token.NEQ, Y: ast.NewIdent("nil")}, Body: ret.(*ast.BlockStmt)}
 	fd.Body.List = append([]ast.Stmt{guard}, fd.Body.List...)
 	decl := &ast.GenDecl{Tok: token.VAR, Specs: []ast.Spec{&ast.ValueSpec{Names: []*ast.Ident{ast.NewIdent(seamName)}, Type: ft}}}
+	r.file.Decls = append(r.file.Decls, decl)
+}
+
+// capture inserts, after the statement that defines vars[0] in fd's body:
+//
+//	if VerifCapture_F != nil { VerifCapture_F(map[string]interface{}{"v1": v1, ...}); return nil, ... }
+//
+// and declares the hook variable.  All results of fd must be nil-able.
+func (r *rewriter) capture(fd *ast.FuncDecl, vars []string) {
+	idx := -1
+	for i, st := range fd.Body.List {
+		if as, ok := st.(*ast.AssignStmt); ok && as.Tok == token.DEFINE {
+			for _, l := range as.Lhs {
+				if id, ok := l.(*ast.Ident); ok && id.Name == vars[0] {
+					idx = i
+				}
+			}
+		}
+	}
+	if idx < 0 {
+		r.fail(fd, "capture: no top-level definition of "+vars[0]+" in "+fd.Name.Name)
+	}
+	hook := "VerifCapture_" + fd.Name.Name
+	var elts []ast.Expr
+	for _, v := range vars {
+		elts = append(elts, &ast.KeyValueExpr{Key: &ast.BasicLit{Kind: token.STRING, Value: strconv.Quote(v)}, Value: ast.NewIdent(v)})
+	}
+	mapType := &ast.MapType{Key: ast.NewIdent("string"), Value: &ast.InterfaceType{Methods: &ast.FieldList{}}}
+	call := &ast.ExprStmt{X: &ast.CallExpr{Fun: ast.NewIdent(hook), Args: []ast.Expr{&ast.CompositeLit{Type: mapType, Elts: elts}}}}
+	ret := &ast.ReturnStmt{}
+	if fd.Type.Results != nil {
+		for _, f := range fd.Type.Results.List {
+			n := len(f.Names)
+			if n == 0 {
+				n = 1
+			}
+			for i := 0; i < n; i++ {
+				ret.Results = append(ret.Results, ast.NewIdent("nil"))
+			}
+		}
+	}
+	guard := &ast.IfStmt{Cond: &ast.BinaryExpr{X: ast.NewIdent(hook), Op: token.NEQ, Y: ast.NewIdent("nil")}, Body: &ast.BlockStmt{List: []ast.Stmt{call, ret}}}
+	list := append([]ast.Stmt{}, fd.Body.List[:idx+1]...)
+	list = append(list, guard)
+	list = append(list, fd.Body.List[idx+1:]...)
+	fd.Body.List = list
+	if r.pkg.Types != nil && r.pkg.Types.Scope().Lookup(hook) != nil {
+		return // declared by a shim file of the harness (so that other packages type-check against it)
+	}
+	decl := &ast.GenDecl{Tok: token.VAR, Specs: []ast.Spec{&ast.ValueSpec{Names: []*ast.Ident{ast.NewIdent(hook)}, Type: &ast.FuncType{Params: &ast.FieldList{List: []*ast.Field{{Type: mapType}}}}}}}
 	r.file.Decls = append(r.file.Decls, decl)
 }
